@@ -776,6 +776,9 @@ class Lib:
             raise Undecided("nested comprehension")
         gen = e.generators[0]
         src = it.eval(gen.iter, env)
+        if isinstance(src, VObj) and src.cls == "file" and not src.f["binary"]:
+            # iterating a text file yields the same lines as readlines()
+            src = self.file_method(it, src, "readlines", [], {})
         r = self.schema_comprehension(it, e, gen, src, env)
         if r is not None:
             return r
